@@ -17,6 +17,7 @@ import AITB.Props.C08Models
 import AITB.Model.SamplingChain
 
 namespace AITB.Sampling
+open AITB.Factored
 
 /-! ## P: `isProbability` overloads -/
 
@@ -390,5 +391,54 @@ theorem betaWithFallback_in_unit (x y hx hy : Rat) (h0x : 0 ≤ x) (h0y : 0 ≤ 
 /-- test: every draw underflowed, fallback numbers (1, 1/4) -/
 example : dirichletWithFallback [0, 0] [1, 1/4] = [4/5, 1/5] := by
   norm_num [dirichletWithFallback, dirichletFromGammas]
+
+/-! ## B: bandit models -/
+
+/-- **B1** `toFactors` of ANY id is a valid joint action (every factor below its size) -/
+theorem toFactors_valid : ∀ (A : List Nat) (id : Nat), (∀ d ∈ A, 0 < d) → Valid A (toFactors A id)
+  | [], _, _ => by simp [toFactors, Valid]
+  | d :: ds, id, h => by
+    simp only [toFactors, Valid]
+    exact ⟨Nat.mod_lt _ (h d (List.mem_cons_self ..)), toFactors_valid ds _ (fun e he => h e (List.mem_cons_of_mem _ he))⟩
+
+/-- **B2** the arm a group reads is inside its local bandit (`arms_[i].getA() = factorSpacePartial(groups_[i], A)`,
+    asserted by the constructor) for every valid joint action -/
+theorem fb_arm_in_range (A a group : List Nat) (ha : Valid A a) (hg : ∀ k ∈ group, k < A.length) :
+    toIndexPartial group A a < spacePartial group A :=
+  mo_toIndexPartial_lt A a group ha hg
+
+/-- **B3** …and for every flattened action id handed to `FlattenedModel::sampleR` (no precondition on the id) -/
+theorem flat_arm_in_range (A group : List Nat) (id : Nat) (hA : ∀ d ∈ A, 0 < d) (hg : ∀ k ∈ group, k < A.length) :
+    toIndexPartial group A (toFactors A id) < spacePartial group A :=
+  fb_arm_in_range A _ group (toFactors_valid A id hA) hg
+
+theorem armSample_in_range (arm : Rat × Rat) (u : Rat) (h : arm.1 ≤ arm.2) (hu : 0 ≤ u) (hu1 : u < 1) :
+    arm.1 ≤ armSample arm u ∧ armSample arm u ≤ arm.2 := by
+  unfold armSample
+  have hd : 0 ≤ arm.2 - arm.1 := by linarith
+  constructor
+  · nlinarith [mul_nonneg hu hd]
+  · nlinarith [mul_le_mul_of_nonneg_right (le_of_lt hu1) hd]
+
+theorem fbSampleR_length (A : List Nat) (groups : List (List Nat)) (arms : List (List (Rat × Rat))) (a : List Nat)
+    (us : List Rat) (h1 : groups.length = arms.length) (h2 : arms.length = us.length) :
+    (fbSampleR A groups arms a us).length = us.length := by
+  simp [fbSampleR, h1, h2]
+
+/-- **B4** reward `i` of a factored bandit sample is the draw of group `i`'s own engine through the arm the
+    partial action index selects: inside that arm's support -/
+theorem fbSampleR_getD (A : List Nat) (groups : List (List Nat)) (arms : List (List (Rat × Rat))) (a : List Nat)
+    (us : List Rat) (h1 : groups.length = arms.length) (h2 : arms.length = us.length) (i : Nat) (hi : i < us.length) :
+    (fbSampleR A groups arms a us).getD i 0 =
+      banditSampleR (arms.getD i []) (toIndexPartial (groups.getD i []) A a) (us.getD i 0) := by
+  have hg : i < groups.length := by omega
+  have ha : i < arms.length := by omega
+  simp [fbSampleR, List.getD_eq_getElem?_getD, List.getElem?_zipWith, hi, hg, ha]
+
+/-- test (B3/B4): two agents with 2 and 3 actions, one group on agent 1: flattened id 5 = (1, 2) reads arm 2 -/
+example : toIndexPartial [1] [2, 3] (toFactors [2, 3] 5) = 2 ∧ flatSampleR [2, 3] [[1]] [[(0, 1), (1, 2), (2, 4)]] 5 [1/2] = 3 := by
+  constructor
+  · decide
+  · norm_num [flatSampleR, fbSampleR, banditSampleR, armSample, toFactors, toIndexPartial, toIndexLoop, sel]
 
 end AITB.Sampling
